@@ -64,6 +64,46 @@ theorem specEval_mapRef {N : Type} [NumOps N] (env env' : Calc.Str → Option (C
   | pct e ih => simp only [refsAll] at h; simp [mapRef, Calc.Spec.eval, ih h]
   | bin op l r ihl ihr => simp only [refsAll] at h; simp [mapRef, Calc.Spec.eval, ihl h.1, ihr h.2]
   | paren e ih => simp only [refsAll] at h; simp [mapRef, Calc.Spec.eval, ih h]
+  | call n a =>
+    simp only [refsAll] at h
+    simp only [mapRef, Calc.Spec.eval]
+    have h1 : (a.map (fun ks => ks.map f)).any (· == []) = a.any (· == []) := by
+      clear h
+      induction a with
+      | nil => rfl
+      | cons x xs ih =>
+        have : (List.map f x == []) = (x == []) := by cases x <;> rfl
+        simp only [List.map_cons, List.any_cons, this, ih]
+    have h2 : (a.map (fun ks => ks.map f)).flatten.map (fun k => (env' k).getD .blank)
+        = a.flatten.map (fun k => (env k).getD .blank) := by
+      clear h1
+      induction a with
+      | nil => rfl
+      | cons x xs ih =>
+        simp only [List.map_cons, List.flatten_cons, List.map_append, List.map_map]
+        rw [ih (fun ks hks => h ks (by simp [hks]))]
+        congr 1
+        apply List.map_congr_left
+        intro k hk
+        simp [h x (by simp) k hk]
+    rw [h1, h2]
+
+open Calc in
+theorem callArgs_map {N : Type} [NumOps N] (env env' : Calc.Str → Option (Calc.Impl.CellArg N))
+    (f : Calc.Str → Calc.Str) (a : List (List Calc.Str)) (acc : List (Calc.Impl.CellArg N))
+    (h : ∀ ks ∈ a, ∀ k ∈ ks, env' (f k) = env k) :
+    Calc.Impl.callArgs env' (a.map (fun ks => ks.map f)) acc = Calc.Impl.callArgs env a acc := by
+  induction a generalizing acc with
+  | nil => rfl
+  | cons x xs ih =>
+    have e1 : (List.map f x = []) ↔ (x = []) := by cases x <;> simp
+    have e2 : (x.map f).map (Calc.Impl.cellOf env') = x.map (Calc.Impl.cellOf env) := by
+      rw [List.map_map]
+      apply List.map_congr_left
+      intro k hk
+      simp [Calc.Impl.cellOf, h x (by simp) k hk]
+    simp only [List.map_cons, Calc.Impl.callArgs, e1, e2]
+    rw [ih _ (fun ks hks => h ks (by simp [hks]))]
 
 open Calc in
 /-- the same for the transcription of calc.go's own operand semantics (`Impl.evalTree`, including its
@@ -90,6 +130,9 @@ theorem implEval_mapRef {N : Type} [NumOps N] (env env' : Calc.Str → Option (C
   | case8 e ih => simp only [refsAll] at h; simp [mapRef, Calc.Impl.evalTree, ih h]
   | case9 op l r ihl ihr => simp only [refsAll] at h; simp [mapRef, Calc.Impl.evalTree, ihl h.1, ihr h.2]
   | case10 e ih => simp only [refsAll] at h; simp [mapRef, Calc.Impl.evalTree, ih h]
+  | case11 n a =>
+    simp only [refsAll] at h
+    simp only [mapRef, Calc.Impl.evalTree, Calc.Impl.callValue, callArgs_map env env' f a [] h]
 
 theorem refsAll_mono {P Q : Calc.Str → Prop} (hpq : ∀ k, P k → Q k) (t : Calc.Expr) (h : refsAll P t) :
     refsAll Q t := by
@@ -99,6 +142,7 @@ theorem refsAll_mono {P Q : Calc.Str → Prop} (hpq : ∀ k, P k → Q k) (t : C
   | pct e ih => exact ih h
   | bin op l r ihl ihr => exact ⟨ihl h.1, ihr h.2⟩
   | paren e ih => exact ih h
+  | call n a => exact fun ks hks k hk => hpq k (h ks hks k hk)
   | num _ => trivial
   | text _ => trivial
   | logical _ => trivial
